@@ -66,6 +66,7 @@ type workerCfg struct {
 	MaxProcs  int             `json:"maxprocs"`
 	MaxViol   int             `json:"max_violations"`
 	ShrinkS   int             `json:"shrink_seconds"`
+	Isolate   bool            `json:"isolate,omitempty"`
 }
 
 type summary struct {
@@ -105,7 +106,27 @@ type findingsFile struct {
 
 const errCrossBubble = "state shared across simulated runs"
 
+var isolate bool
+
 func die(code int, format string, a ...interface{}) {
+	if msg := fmt.Sprintf(format, a...); strings.Contains(msg, errCrossBubble) && !isolate {
+		// The code under test keeps goroutines or channels alive from one call to the next.
+		// They cannot cross from one run's bubble into the next, but they can live and die
+		// with a process: start over with one process per simulated run.
+		fmt.Printf("simdrv: note: %s\n", msg)
+		fmt.Printf("simdrv: note: starting over with one process per simulated run (-isolate): slower, no state is carried from one run to the next, and the clause \"no goroutine is left blocked when the call is over\" is not judged because an idle worker pool looks the same\n")
+		cleanup()
+		cmd := exec.Command(os.Args[0], append([]string{"-isolate"}, os.Args[1:]...)...)
+		cmd.Stdout, cmd.Stderr, cmd.Stdin = os.Stdout, os.Stderr, os.Stdin
+		if err := cmd.Run(); err != nil {
+			if ee, ok := err.(*exec.ExitError); ok {
+				os.Exit(ee.ExitCode())
+			}
+			fmt.Printf("MACHINERY-FAILURE: could not start over: %v\n", err)
+			os.Exit(2)
+		}
+		os.Exit(0)
+	}
 	fmt.Fprintf(os.Stderr, "simdrv: "+format+"\n", a...)
 	fmt.Printf("MACHINERY-FAILURE: "+format+"\n", a...)
 	cleanup()
@@ -278,7 +299,7 @@ func runWorker(bin string, cfg workerCfg, timeout time.Duration) (*summary, erro
 		if strings.Contains(string(lb), "from outside bubble") {
 			// the Go runtime refuses, fatally, to let one synctest bubble touch a channel or
 			// goroutine that was created in another one
-			return nil, fmt.Errorf("worker %d: %s: the code under test keeps goroutines or channels alive from one call to the next (a process-wide worker pool or background goroutine started on first use?). Every simulated run lives in its own synctest bubble and the runtime does not let a bubble touch another bubble's channels, so this simulator cannot host such code; this is a limit of the machinery (DESIGN.md section 6.2, \"Goroutines that outlive a call\"), not a verdict on the property. Log kept in %s", cfg.Worker, errCrossBubble, keepDir)
+			return nil, fmt.Errorf("worker %d: %s: the code under test keeps goroutines or channels alive from one call to the next (a process-wide worker pool or background goroutine started on first use?). Every simulated run lives in its own synctest bubble and the runtime does not let a bubble touch another bubble's channels, so such state cannot pass from one run to the next (DESIGN.md section 6.2, \"Goroutines that outlive a call\"). Log kept in %s", cfg.Worker, errCrossBubble, keepDir)
 		}
 		return nil, fmt.Errorf("worker %d produced no summary (%v): %s", cfg.Worker, werr, tail)
 	}
@@ -320,6 +341,7 @@ func main() {
 	workersFlag := flag.Int("workers", 0, "worker processes (default: number of CPUs)")
 	flag.BoolVar(&keep, "keep", false, "keep the scratch directory")
 	noEvidence := flag.Bool("noevidence", false, "do not write the evidence file (used when trying seeded breakages)")
+	flag.BoolVar(&isolate, "isolate", false, "run every simulated run in a process of its own (chosen automatically when the code under test keeps goroutines alive across calls)")
 	detFlag := flag.Int("determinism", -1, "number of seeds for the determinism self-test (default per tier)")
 	flag.Parse()
 	if flag.NArg() != 1 {
@@ -432,7 +454,7 @@ func main() {
 				gw.Add(1)
 				go func(k, mp int) {
 					defer gw.Done()
-					cfg := workerCfg{Property: prop, Mode: "determinism", Tier: tier, VerifSeed: seed, NWorkers: 1, Indices: part, OutFile: filepath.Join(scratch, fmt.Sprintf("det-%d-%d-%d.json", g, mp, k)), Findings: openIDs, MaxProcs: mp}
+					cfg := workerCfg{Property: prop, Mode: "determinism", Tier: tier, VerifSeed: seed, NWorkers: 1, Indices: part, OutFile: filepath.Join(scratch, fmt.Sprintf("det-%d-%d-%d.json", g, mp, k)), Findings: openIDs, MaxProcs: mp, Isolate: isolate}
 					s, err := runWorker(bin, cfg, 60*time.Minute)
 					res[k] = dres{s, err}
 				}(k, mp)
@@ -516,7 +538,7 @@ func main() {
 		wg.Add(1)
 		go func(w int) {
 			defer wg.Done()
-			cfg := workerCfg{Property: prop, Mode: "explore", Tier: tier, VerifSeed: seed, Worker: w, NWorkers: nw, Runs: *runsFlag,
+			cfg := workerCfg{Property: prop, Mode: "explore", Tier: tier, VerifSeed: seed, Worker: w, NWorkers: nw, Runs: *runsFlag, Isolate: isolate,
 				OutFile: filepath.Join(scratch, fmt.Sprintf("w%d.json", w)), ReplayDir: replayDir, Findings: openIDs, MaxProcs: procsCycle[w%3], MaxViol: 2, ShrinkS: 40}
 			sums[w], errs[w] = runWorker(bin, cfg, timeout)
 			if errs[w] != nil && !strings.Contains(errs[w].Error(), "watchdog") && !strings.Contains(errs[w].Error(), errCrossBubble) {
@@ -742,6 +764,7 @@ func main() {
 			"determinism_mismatches":        detMismatch,
 			"worker_processes":              nw,
 			"worker_restarts":               restarts.Load(),
+			"one_process_per_simulated_run": isolate,
 			"known_findings_observed":       agg.Known,
 			"components_real_code":          agg.RealCode,
 			"components_stubbed":            agg.Stubs,
